@@ -284,8 +284,22 @@ def enumerated(tier, seed):
            G("p", None, ("new", "P", [I(1)])), G("q", None, ("new", "P", [I(1)])), G("r", None, V("p")),
            ("print", ("mcall", ("mcall", ("mcall", V("p"), "inc", []), "inc", []), "val", [])), ("print", ("mcall", V("q"), "val", [])), ("print", ("mcall", V("r"), "val", [])),
            ("print", ("bin", "is", V("p"), V("r"))), ("print", ("bin", "is", V("p"), V("q"))), ("print", ("bin", "is", ("mcall", V("p"), "inc", []), V("r")))]
+    # a class declared inside a function body / a loop body: every execution of the declaration creates the class again and
+    # its instances are distinct objects with their own fields
+    local_cls = ("class", "L", [("v", "int")], [("v", "int")], [("setf", SELF, "v", V("v"))],
+                 [("val", [], "int", [("return", F(SELF, "v"))]), ("add", [("d", "int")], None, [("opassign", F(SELF, "v"), "+=", V("d"))])])
+    use = [G("a", None, ("new", "L", [V("n")])), G("b", None, ("new", "L", [V("n")])), G("c", None, V("a")),
+           ("expr", ("mcall", V("a"), "add", [I(10)])), ("print", ("bin", "is", V("a"), V("c"))), ("print", ("bin", "is", V("a"), V("b")))]
+    infn = [G("mk", None, ("fn", [("n", "int")], "int", [local_cls] + use +
+                           [("return", ("bin", "+", ("bin", "*", ("mcall", V("c"), "val", []), I(100)), ("mcall", V("b"), "val", [])))])),
+            ("print", ("call", V("mk"), [I(1)])), ("print", ("call", V("mk"), [I(2)])), ("print", ("call", V("mk"), [I(3)]))]
+    inloop = [G("n", None, I(0)),
+              ("while", ("bin", "<", V("n"), I(3)), [G("n", None, ("bin", "+", V("n"), I(1))), local_cls] + use +
+               [("print", ("mcall", V("c"), "val", [])), ("print", ("mcall", V("b"), "val", []))])]
     return [{"stmts": coll, "labels": ["feat:field-named-like-a-global"], "nt": True, "raw": True},
-            {"stmts": two, "labels": ["fixed:chain-identity"], "nt": True, "raw": True}]
+            {"stmts": two, "labels": ["fixed:chain-identity"], "nt": True, "raw": True},
+            {"stmts": infn, "labels": ["feat:class-declared-in-function-called-repeatedly"], "nt": True, "raw": True},
+            {"stmts": inloop, "labels": ["feat:class-declared-in-loop-body"], "nt": True, "raw": True}]
 
 
 def strategy(tier):
